@@ -143,11 +143,8 @@ def run_config(cfg):
             if fv in BUILT:
                 want = BUILT[fv][2] or EQN
             else:
-                want = EQN if fv in ('absent', 'empty', 'zero') else OLD[fv]
-            if fv == 'zero-dot':
-                ok = got is not None and (_same(got, EQN, env) or _same(got, OLD[fv], env))     # don't-care
-            else:
-                ok = got is not None and _same(got, want, env)
+                want = EQN if fv in ('absent', 'empty', 'zero', 'zero-dot') else OLD[fv]      # '0.' is identically zero like '0.0'
+            ok = got is not None and _same(got, want, env)
             if not ok and out['viol'] is None:
                 out['viol'] = {'why': 'flow variable %s defined as %r, expected %r' % (name, got, want), 'c': ['1'] * len(cs), 'detail': []}
         out['accepted'] += 1
@@ -343,14 +340,11 @@ for i in range(5):
 if fv != 'n/a':
     got = s.EquationBlock[name].RHS()
     if fv in BUILT: want = BUILT[fv][2] or 'q*3 + 1'
-    else: want = 'q*3 + 1' if fv in ('absent', 'empty', 'zero') else OLD[fv]
+    else: want = 'q*3 + 1' if fv in ('absent', 'empty', 'zero', 'zero-dot') else OLD[fv]
     print('flow variable', name, '=', repr(got), 'expected', repr(want))
     env = {'q': 1.7, 'z': 2.9, 'w': 0.7, 'v': 1.3}
     g = eval(got, {}, env) if got.strip() else 0.0
-    if fv == 'zero-dot':
-        bad = bad or (abs(g - eval('q*3 + 1', {}, env)) > 1e-9 and abs(g) > 1e-9)
-    else:
-        bad = bad or abs(g - (eval(want, {}, env) if want.strip() else 0.0)) > 1e-9
+    bad = bad or abs(g - (eval(want, {}, env) if want.strip() else 0.0)) > 1e-9
 sys.exit(1 if bad else 0)
 '''
 
@@ -427,8 +421,7 @@ def run(tier, seed):
                   'concrete AddCashFlow histories': '%d sequences of length <= 3' % len(hs),
                   'RegisterCashFlow sequences through Model.main()': '%d sequences of length <= %d among three sectors' % (len(rc), 2 if tier == 'quick' else 3),
                   'numeric domain': 'all real coefficients and valuations'}
-    chk.assumptions = ['income exclusions are registered before the flows they concern (the exclusion list is consulted when a flow is registered; an exclusion added afterwards is not retroactive - documented behaviour, not claimed)', 'names used as divisors are non-zero', "don't-care: a prior definition spelled as a zero literal other than the rendered '0.0' "
-                       "(e.g. '0.') may be kept or replaced", 'an exclusion is in force for flows registered after it (pre-state of the step)',
+    chk.assumptions = ['income exclusions are registered before the flows they concern (the exclusion list is consulted when a flow is registered; an exclusion added afterwards is not retroactive - documented behaviour, not claimed)', 'names used as divisors are non-zero', "a prior definition spelled as a zero literal ('0.0', '0.') is identically zero and is replaced (until round 7 the spelling '0.' was a don't-care)", 'an exclusion is in force for flows registered after it (pre-state of the step)',
                        'a defining expression is passed only with a single local name as the flow term']
     chk.outside = ['flow terms with more than one operator', 'exclusions registered after the flow they name (exclusions registered BETWEEN flows are covered: in force for the flows that follow)']
     n = 48
